@@ -18,7 +18,7 @@
 EXTENDS Integers, Sequences, FiniteSets, TLC, FsOps
 
 CONSTANTS Base, Count,        \* fixed window b, c
-          Roller,             \* "window" | "delete"
+          Roller,             \* "window" | "delete" | "noop" (a user-defined roller that returns Ok and leaves the file where it is)
           AppendMode,         \* TRUE = append, FALSE = truncate
           ReopenTruncates,    \* TRUE = the truncate-mode reopen after a failed roll truncates again
                               \* (the defect F5 of the original code); FALSE = truncate only at build
@@ -145,7 +145,7 @@ BeginRoll(nextpc) ==
   /\ after' = nextpc
   /\ rolls' = rolls + 1
   /\ IF IsWindow THEN pc' = "rot" /\ ri' = Base + Count - 2 ELSE pc' = "remove" /\ UNCHANGED ri
-  /\ ref' = IF ~IsWindow THEN <<>>
+  /\ ref' = IF ~IsWindow THEN <<>>        \* (for "noop" the shadow is the delete roller: nothing is owed)
             ELSE SubSeq(<<refAct \o writer.buf>> \o ref, 1, IF Len(ref) + 1 > Count THEN Count ELSE Len(ref) + 1)
   /\ refAct' = <<>>
 
@@ -170,7 +170,8 @@ RotStep ==
   /\ IF pc = "remove"
      THEN IF fault.k = "remove"
           THEN fault' = NoFault /\ Fail /\ UNCHANGED <<disk, ri>>
-          ELSE /\ disk' = [disk EXCEPT !.act = Absent] /\ pc' = after
+          ELSE /\ disk' = IF Roller = "noop" THEN disk ELSE [disk EXCEPT !.act = Absent]
+               /\ pc' = after
                /\ UNCHANGED <<fault, res, ri, hist>>
      ELSE IF ri >= Base
      THEN IF fault.k = "shift" /\ fault.i = ri
